@@ -5,6 +5,7 @@ Module for an Exact Algorithm, ILP based, using PuLP
 from typing import List, Dict, Set
 from itertools import combinations
 from operator import itemgetter
+from math import isfinite
 from numpy import ndarray
 import pulp
 from igraph import Graph
@@ -60,6 +61,9 @@ class ExactAlgorithmPulp(RankAggAlgorithm, PairwiseBasedAlgorithm):
         # absolute: the costs are computed with the penalties divided by B[1] (> 0 for any valid scoring scheme), so
         # that a disagreement costs 1 whatever the magnitude of the scoring scheme
         scale: float = scoring_scheme.b_vector[1]
+        if not isfinite(1. / scale):
+            # B[1] is so small that its inverse is not a float: the penalties are used as they are
+            scale = 1.
         graph, cost_matrix = ExactAlgorithmPulp.graph_of_elements(positions, scoring_scheme * (1. / scale))
 
         # values of penalty associated to each true pulp variable
